@@ -29,11 +29,22 @@ def run_property(pid: str, tier: str, overlay=None, quiet=False, write=True, ctx
     rep = Report(pid, tier, quiet=quiet)
     mod.check(ctx, rep)
     rep.units = ctx.units()
+    st_error = None
     if tier == "thorough" and write:
         from sa import selftest
 
-        rep.selftest = selftest.run_for(pid, quiet=quiet, baseline_keys=[f.key for f in rep.findings])
+        try:
+            rep.selftest = selftest.run_for(pid, quiet=quiet, baseline_keys=[f.key for f in rep.findings])
+        except AnalysisError as e:
+            # the verdict on the tree itself comes first: a violation found by the rules is reported (exit 1) even when the checker's
+            # self-test does not pass on this tree (its variants are written against the unmodified sources)
+            st_error = e
+            rep.selftest = {"failed": str(e)[:2000]}
     code = rep.finish(write=write)
+    if st_error is not None:
+        if code == 0:
+            raise st_error
+        print(f"note: checker self-test did not pass on this tree: {str(st_error)[:300]}")
     return code, rep
 
 
